@@ -21,7 +21,13 @@ func init() {
 	Props["C01"] = &PropDef{Profile: prof("C01", func(p *gen.Profile) { p.GopathPct = 4; p.AdvNamesPct = 30 }), Oracle: oracle.C01, Confirm: true}
 	Props["C02"] = &PropDef{Profile: prof("C02", func(p *gen.Profile) { p.EmbedPct = 45; p.MaxMethods = 5; p.TwinPct = 14 }), Oracle: oracle.C02}
 	Props["C08s"] = &PropDef{Profile: prof("C08s", func(p *gen.Profile) { p.MaxMethods = 4 }), Oracle: oracle.C08Static}
-	Props["C09"] = &PropDef{Profile: prof("C09", func(p *gen.Profile) { p.GenericPct = 85; p.MaxIfaces = 2; p.DestOther = 35; p.GenericAliasBoost = 60 }), Oracle: oracle.C09}
+	Props["C09"] = &PropDef{Profile: prof("C09", func(p *gen.Profile) {
+		p.GenericPct = 85
+		p.MaxIfaces = 2
+		p.DestOther = 35
+		p.GenericAliasBoost = 60
+		p.BlankTParamBoost = 14
+	}), Oracle: oracle.C09}
 	Props["C10"] = &PropDef{Profile: prof("C10", func(p *gen.Profile) { p.DestOther = 40; p.DestTest = 20; p.DestSame = 15 }), Oracle: oracle.C10}
 	Props["C11"] = &PropDef{Profile: prof("C11", func(p *gen.Profile) {
 		p.Conflict = true
